@@ -50,6 +50,17 @@ CHECKS["C27"] = ("model_checking",
   "Trusted: the environment model's reading of the HTML event-loop and IndexedDB transaction-ordering rules (listed in the evidence); shim fidelity for the ~30 API functions used. wasm32 code generation and real browsers are not exercised.",
   "DESIGN.md §3-C27")
 
+CHECKS["C23"] = ("model_checking",
+  "explicit-state BFS over HTTP request sequences against a live in-process server, model-state dedup, queue reference model",
+  "Level-synchronous BFS over all sequences (depth <=4 quick / <=6 thorough) of 14 requests (/add, /bulk, /delete valid / invalid / mixed, /commit, /refresh, /compact, /search) sent as raw HTTP/1.1 to a real searchlite_http::run server on a fresh directory; every transition replays the sequence on a fresh server and probes search;commit;search. Oracle: a 2xx write appends its operations to the queue model, a non-2xx write leaves the queue untouched, /commit applies the queue in order, every search equals the committed model.",
+  "Trusted: queue reference model; one request at a time (no concurrent clients); unknown document fields left out (C15's concern).",
+  "DESIGN.md §3-C23")
+CHECKS["C24"] = ("exploration",
+  "exhaustive enumeration of method x path (all single-character route edits) x content type x body (all single-edit neighbours of valid bodies, oversize, non-UTF-8, error-provoking searches) against a live server in three states",
+  "Every request of the stated product is sent over a raw TCP connection to a live server (no index / index / index + queued doc, --max-body-bytes 2048) and followed by GET /healthz. Oracle: a complete response arrives; 2xx bodies are JSON of the documented shape; every non-2xx carries {error:{type,reason}}; 404 without index, 409 on re-init, 413 oversized, 4xx for invalid input; the server stays alive.",
+  "Trusted: documented status/envelope contract (README, openapi.yaml). Left out: malformed HTTP framing, bodies with trailing bytes after a complete JSON value (docs silent), huge limit values.",
+  "DESIGN.md §3-C24")
+
 NOT_YET = "check not built yet in this session (see DESIGN.md §3 for the planned engine); no verdict is claimed"
 NOT_APPLICABLE = {}
 
